@@ -47,6 +47,8 @@ pub enum IdKind {
 #[derive(Clone, Debug, Serialize, Deserialize, PartialEq, Eq)]
 pub enum SOp {
     Step { sel: u16 },
+    /// Like Step, with only `budget` units of tokio's cooperative-scheduling budget left (see COp::StepCoop)
+    StepCoop { sel: u16, budget: u8 },
     Drain,
     SendRequest { idk: IdKind, dl: Dl, trace: u16, sampled: bool, hold: bool },
     /// cancel an id: sel over ids the model believes in flight; unknown = Some(k) sends an id never used
@@ -564,6 +566,11 @@ impl ServerSim {
     }
 
     pub fn poll_task(&self, t: TaskId) -> PollOut {
+        self.poll_task_c(t, false)
+    }
+
+    /// `constrained`: poll under what is left of tokio's cooperative budget (see `SOp::StepCoop`).
+    pub fn poll_task_c(&self, t: TaskId, constrained: bool) -> PollOut {
         if t == self.consumer_task {
             self.steer_f6_at_poll();
             if !self.tr.write_blocked() {
@@ -573,8 +580,18 @@ impl ServerSim {
         }
         self.hist.0.cur_task.set(Some(t + 1000 * self.hop));
         self.hist.0.poll_seq.set(self.hist.0.poll_seq.get() + 1);
-        let start = self.hist.push(Ev::PollStart { task: t + 1000 * self.hop });
-        let out = self.exec.poll(t);
+        let start = self.hist.push(Ev::PollStart { task: t + 1000 * self.hop, coop: constrained });
+        let out = if constrained {
+            self.exec.poll(t)
+        } else {
+            let mut f = std::pin::pin!(tokio::task::unconstrained(std::future::poll_fn(|_| Poll::Ready(self.exec.poll(t)))));
+            let w = futures::task::noop_waker();
+            let mut cx = Context::from_waker(&w);
+            match f.as_mut().poll(&mut cx) {
+                Poll::Ready(o) => o,
+                Poll::Pending => unreachable!("poll_fn returns Ready"),
+            }
+        };
         if self.anon_tasks.borrow().contains(&t) {
             let started: Option<usize> = self.hist.with(|r| {
                 r[start..].iter().find_map(|x| if let Ev::HandlerStarted { inst } = &x.ev { Some(*inst) } else { None })
@@ -593,7 +610,7 @@ impl ServerSim {
                 format!("Panicked: {m}")
             }
         };
-        self.hist.push(Ev::PollEnd { task: t + 1000 * self.hop, out: o, woken: self.exec.is_woken(t) });
+        self.hist.push(Ev::PollEnd { task: t + 1000 * self.hop, out: o, woken: constrained || self.exec.is_woken(t) });
         self.after_poll();
         self.steer_f6_at_poll();
         out
@@ -959,6 +976,23 @@ impl ServerSim {
             SOp::Step { sel } => {
                 self.step(*sel);
             }
+            SOp::StepCoop { sel, budget } => {
+                let w = self.exec.woken();
+                if w.is_empty() {
+                    self.noop();
+                } else {
+                    let t = w[Self::pick(*sel, w.len())];
+                    tokio::task::yield_now().await;
+                    for _ in 0..(128u32.saturating_sub(*budget as u32)) {
+                        tokio::task::coop::consume_budget().await;
+                    }
+                    if self.exec.is_woken(t) {
+                        self.poll_task_c(t, true);
+                    } else {
+                        self.noop();
+                    }
+                }
+            }
             SOp::Drain => self.drain().await,
             SOp::SendRequest { idk, dl, trace, sampled, hold } => {
                 self.send_request(*idk, *dl, *trace, *sampled, *hold && !self.cfg.adaptor)
@@ -1091,7 +1125,8 @@ pub fn run_server_opts(cfg: &ServerCfg, ops: &[SOp], avoid_f6: bool, strict_sink
     let _sub = subscriber_guard(cfg.subscriber);
     let rt = new_runtime();
     let hist = Hist::new();
-    let mut out = rt.block_on(tokio::task::unconstrained(async {
+    // root future under tokio's cooperative budget; ordinary task polls are individually exempt (poll_task)
+    let mut out = rt.block_on(async {
         let sim = ServerSim::new(cfg.clone(), hist.clone(), 0, 1);
         sim.avoid_f6.set(avoid_f6);
         sim.tr.set_strict(strict_sink);
@@ -1129,7 +1164,7 @@ pub fn run_server_opts(cfg: &ServerCfg, ops: &[SOp], avoid_f6: bool, strict_sink
         run.recs = hist.snapshot();
         sim.finish();
         run
-    }));
+    });
     drop(rt);
     clock::disable();
     out
